@@ -35,7 +35,9 @@ Record code_cfg := {
   cc_validate_thr_upper : bool;      (* … VoteThreshold > 1 (662a06f) *)
   cc_validate_min_voters : bool;
   cc_validate_band : bool;
-  cc_edit_validates : bool           (* EditOracleParams validates the merged params before storing (662a06f) *)
+  cc_edit_validates : bool;          (* EditOracleParams validates the merged params before storing (662a06f) *)
+  cc_voter_strings : list string     (* the distinct forms of the Voter field in every AggregateExchangeRate(Pre)vote literal of
+                                        x/oracle{,/keeper,/types}: "canon" = <address>.String(), otherwise "raw:<expr>" *)
 }.
 
 Definition expected_pipeline : list string :=
@@ -83,6 +85,10 @@ Definition validate_ok (c : code_cfg) : bool :=
   cc_validate_vote_period c && cc_validate_thr_lower c && cc_validate_thr_upper c &&
   cc_validate_min_voters c && cc_validate_band c && cc_edit_validates c.
 
+(** the Voter string of every stored vote / prevote is the canonical spelling of a decoded address
+    (Model.voter_string true); a literal built from a message field selects [voter_string false] *)
+Definition voter_canonical (c : code_cfg) : bool := forallb (String.eqb "canon") (cc_voter_strings c).
+
 (** the configuration the theorems of Property.v are about *)
 Definition cfg_ok (c : code_cfg) : bool :=
-  match variant_of c with Some (true, true, true) => validate_ok c | _ => false end.
+  match variant_of c with Some (true, true, true) => validate_ok c && voter_canonical c | _ => false end.
